@@ -20,14 +20,17 @@ pub enum View {
     OptRef(usize),
     Arc(usize),
     ArcArc(usize, usize),
+    /// through `Bitmap::slice_at` of the bitmap itself
+    At(usize),
+    AtAt(usize, usize),
 }
 
 impl View {
     fn base(&self) -> usize {
         match *self {
             View::Direct => 0,
-            View::Ref(a) | View::OptRef(a) | View::Arc(a) => a,
-            View::RefRef(a, b) | View::ArcArc(a, b) => a.wrapping_add(b),
+            View::Ref(a) | View::OptRef(a) | View::Arc(a) | View::At(a) => a,
+            View::RefRef(a, b) | View::ArcArc(a, b) | View::AtAt(a, b) => a.wrapping_add(b),
         }
     }
     fn mark(&self, bm: &Arc<AtomicBitmap>, off: usize, len: usize) {
@@ -38,6 +41,8 @@ impl View {
             View::OptRef(a) => Some(RefSlice::new(&**bm, a)).mark_dirty(off, len),
             View::Arc(a) => ArcSlice::new(bm.clone(), a).mark_dirty(off, len),
             View::ArcArc(a, b) => ArcSlice::new(bm.clone(), a).slice_at(b).mark_dirty(off, len),
+            View::At(a) => Bitmap::slice_at(&**bm, a).mark_dirty(off, len),
+            View::AtAt(a, b) => Bitmap::slice_at(&**bm, a).slice_at(b).mark_dirty(off, len),
         }
     }
     fn dirty_at(&self, bm: &Arc<AtomicBitmap>, off: usize) -> bool {
@@ -48,6 +53,8 @@ impl View {
             View::OptRef(a) => Some(RefSlice::new(&**bm, a)).dirty_at(off),
             View::Arc(a) => ArcSlice::new(bm.clone(), a).dirty_at(off),
             View::ArcArc(a, b) => ArcSlice::new(bm.clone(), a).slice_at(b).dirty_at(off),
+            View::At(a) => Bitmap::slice_at(&**bm, a).dirty_at(off),
+            View::AtAt(a, b) => Bitmap::slice_at(&**bm, a).slice_at(b).dirty_at(off),
         }
     }
     fn describe(&self) -> String {
@@ -213,12 +220,14 @@ fn gen_view(g: &Geometry) -> View {
             _ => c.a(span.min(1 << 20) as u32) as usize,
         }
     };
-    match c.a(8) {
+    match c.a(10) {
         0 | 1 | 2 => View::Direct,
         3 => View::Ref(off(c)),
         4 => View::RefRef(off(c), off(c)),
         5 => View::OptRef(off(c)),
         6 => View::Arc(off(c)),
+        7 => View::At(off(c)),
+        8 => View::AtAt(off(c), off(c)),
         _ => View::ArcArc(off(c), off(c)),
     }
 }
@@ -736,20 +745,23 @@ fn gen_len(m: &MBitmap) -> usize {
 fn gen_mview(m: &MBitmap) -> View {
     let c = cx();
     let off = |c: &mut crate::sim::Ctx| -> usize {
-        match c.a(6) {
+        match c.a(7) {
             0 => 0,
             1 => m.ps,
             2 => usize::MAX - c.a(3) as usize,
             3 => m.byte_size,
+            4 => m.byte_size + 1 + c.a(2 * m.ps.min(5000) as u32) as usize,
             _ => c.a((m.byte_size + 2).min(1 << 24) as u32) as usize,
         }
     };
-    match c.a(8) {
+    match c.a(11) {
         0 | 1 => View::Direct,
         2 => View::Ref(off(c)),
         3 => View::RefRef(off(c), off(c)),
         4 => View::OptRef(off(c)),
         5 => View::Arc(off(c)),
+        6 | 7 => View::At(off(c)),
+        8 | 9 => View::AtAt(off(c), off(c)),
         _ => View::ArcArc(off(c), off(c)),
     }
 }
@@ -1087,5 +1099,7 @@ fn view_kind(v: &View) -> &'static str {
         View::OptRef(_) => "Option<RefSlice>",
         View::Arc(_) => "ArcSlice",
         View::ArcArc(..) => "ArcSlice of ArcSlice",
+        View::At(_) => "slice_at",
+        View::AtAt(..) => "slice_at of slice_at",
     }
 }
